@@ -254,7 +254,7 @@ def batch_plan(case, idxs):
 
 # ---- include cycles over a real scratch directory ------------------------------------------------
 def generate_include(rng, run):
-    root = os.path.join(SCRATCH, "r%d_%d" % (os.getpid(), run))
+    root = os.path.join(SCRATCH, "r%07d_%d" % (os.getpid(), run))
     variant = rng.choice(["self", "mutual", "chain3-cycle", "missing", "empty", "cut", "deep-ok", "dir-instead-of-file"])
     files = {}
     if variant == "self":
